@@ -5,7 +5,17 @@ ALLOC_NOTE = ("Trusted: Lean kernel (axioms propext, Classical.choice, Quot.soun
               "tied to the code by differential conformance on generated histories (sampling, bounded by generator quality); "
               "bits-and-blooms/bitset modelled as a list of booleans, not verified; each Allocate/Free is one atomic step (mutex held across the call).")
 
+RANGE_NOTE = ("Trusted: Lean kernel; the hand-written model of plugins/range (plugin.go, storage.go) over the IPv4 allocator model, tied to the code by differential conformance "
+              "on generated request/restart histories against the real plugin and a real sqlite file; sqlite, net.ParseIP and the clock are parameters; "
+              "the stored hardware-address round trip is an explicit hypothesis of the theorems, exercised by every restart in the run.")
+
 META = {
+    "C02": dict(
+        text="Lean invariant proof by induction over every history of requests and restarts (any hardware-address lengths, any times, any allocator policy, any re-marking order): the history monitor 'in range, configured lease time, sticky per client, injective, unanswered only when exhausted' never fails on the model; the same monitor judges the implementation's trace while the model is stepped alongside.",
+        design_ref="DESIGN.md §4 C02", technique="Lean 4 invariant proof over all request/restart histories + conformance against the real range plugin on a real sqlite file", note=RANGE_NOTE),
+    "C03": dict(
+        text="Lean theorem: at every reachable state a restart on the written table succeeds and restores the same bindings and allocator bitmap for every re-marking order; stored expiry within one second of the promised lease end. The pre-repair loader (net.ParseMAC) is refuted by a concrete witness that the corpus replays on the code.",
+        design_ref="DESIGN.md §4 C03", technique="Lean 4 invariant proof (restart at every reachable state) + conformance with a restart on a copy of the database at generated crash points", note=RANGE_NOTE),
     "C20": dict(
         text="Lean theorems over a BitVec-64 model that follows ipcalc.go statement by statement: Offset equals the block index or overflow, in either argument order; AddPrefixes equals base+n*2^(128-p) or overflow; the two are inverse — for all 128-bit operands, all p in 0..128, all n. The model is tied to the code by exact differential comparison on carry/borrow-biased operands every run.",
         design_ref="DESIGN.md §4 C20", technique="Lean 4 theorem (unbounded, BitVec/Nat arithmetic) + differential conformance of the model against allocators.Offset/AddPrefixes",
@@ -25,4 +35,4 @@ META = {
 }
 NOT_YET = {}
 # properties whose check is complete and registered
-ENABLED = {"C20"}
+ENABLED = {"C20", "C02", "C03"}
